@@ -281,9 +281,9 @@ def handler : Handler := fun op j =>
     if ks.length ≠ dims.length ∨ cs.length ≠ dims.length then some (err "shape") else
     let N := prodL dims
     let h := cvecOf re im
-    let ks' := (ks.zip dims).map (fun (k, n) => min k n)
-    -- crop of a filter longer than an axis: re-index the filter to the cropped shape
-    let hc : V Cx := fun q => h (ravel ks (unravel ks' q))
+    -- a filter longer than an axis is cropped by `fftn(h, s=dims)`: `minShape`, `cropFilter` (C04_circ_nd_fft_crop)
+    let ks' := minShape ks dims
+    let hc : V Cx := cropFilter ks dims h
     let basis (q : Nat) : V Cx := fun p => if p = q then 1 else 0
     some (ok (jObj [("mat", jCMat (circMatrixNd ks' dims cs hc) N N),
       ("eval", jCMat (fun p q => circNd ks' dims cs hc (basis q) p) N N)]))
